@@ -242,13 +242,18 @@ type Env struct {
 	names    []string
 	byCh     map[byte]p2p.Reactor
 	nameByCh map[byte]string
+	capByCh  map[byte]int // RecvMessageCapacity: the connection layer never delivers a longer message
 	DeadWhy  string
 	Anchor   *StubPeer
+	SeedMode bool
 	Abandoned bool // a violation left goroutines of this environment blocked: do not pull its files from under them
 	queued   int // messages put on the consensus queue while nobody drains it (syncing)
 }
 
 const gossipSleep = time.Millisecond
+
+// PexSeedMode: the next environment runs its PEX reactor in seed mode (answers one request per inbound peer and hangs up).
+var PexSeedMode bool
 
 // scratchDir makes a directory under the run's scratch area (created by the parent process, removed by
 // it at the end of the run; tmpfs if available).
@@ -274,7 +279,7 @@ func NewEnv(mode string, height uint64) (*Env, error) {
 			fmt.Fprintln(os.Stderr, "NEWENV", mode, height, "took", time.Since(tEnv))
 		}
 	}()
-	e := &Env{Mode: mode, AdvIdx: 3, byCh: map[byte]p2p.Reactor{}, nameByCh: map[byte]string{}}
+	e := &Env{Mode: mode, AdvIdx: 3, byCh: map[byte]p2p.Reactor{}, nameByCh: map[byte]string{}, capByCh: map[byte]int{}}
 	e.Dir = scratchDir()
 	nodeOpts := func(i int) netsim.NodeOpts {
 		o := netsim.NodeOpts{Config: func(c *configs.ConsensusConfig) {
@@ -386,6 +391,7 @@ func (e *Env) add(name string, r p2p.Reactor) {
 	for _, d := range r.GetChannels() {
 		e.byCh[d.ID] = r
 		e.nameByCh[d.ID] = name
+		e.capByCh[d.ID] = d.FillDefaults().RecvMessageCapacity
 	}
 }
 
@@ -405,7 +411,8 @@ func (e *Env) wire(fs *configs.FastSyncConfig) {
 	}
 	e.Book = pex.NewAddrBook(filepath.Join(e.Dir, "addrbook.json"), true)
 	e.SW.SetAddrBook(e.Book)
-	e.Pex = pex.NewReactor(e.Book, &pex.ReactorConfig{SeedDisconnectWaitPeriod: 14 * time.Hour})
+	e.Pex = pex.NewReactor(e.Book, &pex.ReactorConfig{SeedMode: PexSeedMode, SeedDisconnectWaitPeriod: 14 * time.Hour})
+	e.SeedMode = PexSeedMode
 	e.add("PEX", e.Pex)
 	e.BC = blockchain.NewBlockchainReactor(state, v.Exec, v.BO, fs)
 	e.add("BLOCKCHAIN", e.BC)
